@@ -2,6 +2,7 @@ package sym
 
 import (
 	"fmt"
+	"sync"
 	"go/types"
 	"os"
 	"path/filepath"
@@ -22,6 +23,8 @@ type Program struct {
 	RepoDir  string
 	byName   map[string]*ssa.Package
 	implMemo map[[2]types.Type]bool
+	implMu   sync.Mutex
+	tokens   sync.Map
 }
 
 // Load loads pkgPath from repoDir with the harness files of harnessDir overlaid into pkgDir.
